@@ -57,12 +57,20 @@ func (l *EventsLoader) LoadAndVerify(ctx context.Context, rawEvents []json.RawMe
 	// 3. Passes hash checks, otherwise it is redacted before being processed further.
 	events := make([]PDU, 0, len(rawEvents))
 	errs := make([]error, 0, len(rawEvents))
+	seen := make(map[string]struct{}, len(rawEvents))
 	for _, rawEv := range rawEvents {
 		event, err := verImpl.NewEventFromUntrustedJSON(rawEv)
 		if err != nil {
 			errs = append(errs, err)
 			continue
 		}
+		// ReverseTopologicalOrdering keeps one event per event ID. A repeated event must be
+		// accounted for here, otherwise a slot of results stays empty (no Event, no Error).
+		if _, ok := seen[event.EventID()]; ok {
+			errs = append(errs, fmt.Errorf("gomatrixserverlib: duplicate event %q", event.EventID()))
+			continue
+		}
+		seen[event.EventID()] = struct{}{}
 		events = append(events, event)
 	}
 
